@@ -41,15 +41,15 @@ theorem FillsFrom.nil_taken {V : Type} {pos : Nat} {ins full : List (Option V)}
   | put hm _ _ => simp at hm
 
 /-- The executor's input collection against the naive one. -/
-theorem inputs_sim {V : Type} (r : Run V) (E : Nat → Option V) (st2 : St V)
+theorem inputs_sim {V : Type} (r : Run V) (lk : Nat → Option V) (st2 : St V)
     (taken : List (Nat × V)) (op : OpNode)
-    (HT : ∀ p v, (p, v) ∈ taken → ∃ id, op.inputs[p]? = some (some id) ∧ val r E id = some v)
+    (HT : ∀ p v, (p, v) ∈ taken → ∃ id, op.inputs[p]? = some (some id) ∧ lk id = some v)
     (HN : ∀ p id, p ∉ taken.map (fun t => t.1) → op.inputs[p]? = some (some id) →
-      lookupInput r st2 id = val r E id) :
+      lookupInput r st2 id = lk id) :
     ∀ (l : List (Option Nat)) (pos : Nat), (∀ k, l[k]? = op.inputs[pos + k]?) →
       match collectInputs r st2 (taken.map (fun t => t.1)) l pos with
-      | none => naiveInputs (val r E) l = none
-      | some ins => ∃ full, naiveInputs (val r E) l = some full ∧ FillsFrom taken pos ins full := by
+      | none => naiveInputs (lk) l = none
+      | some ins => ∃ full, naiveInputs (lk) l = some full ∧ FillsFrom taken pos ins full := by
   intro l
   induction l with
   | nil => intro pos _; exact ⟨[], rfl, .nil pos⟩
@@ -104,7 +104,7 @@ theorem inputs_sim {V : Type} (r : Run V) (E : Nat → Option V) (st2 : St V)
       | some id =>
         have hlk := HN pos id hnot h0
         simp only
-        cases hv : val r E id with
+        cases hv : lk id with
         | none =>
           rw [hv] at hlk
           simp only [hlk, naiveInputs, hv]
@@ -204,8 +204,9 @@ theorem candidates_fst_nodup {V : Type} {ops : Ops V} (i : Nat) (op : OpNode) (t
 
 /-- Counts are exact: an id with count 1 that sits in `temp_values` occurs at most once among
 the dependencies of the operator about to run. -/
-theorem Sim.count_le_one {V : Type} {r : Run V} {total : Nat → Nat} {i : Nat} {rest outs : List Nat}
-    {st : St V} {E : Nat → Option V} (hs : Sim r total (i :: rest) outs st E) {op : OpNode}
+theorem Sim.count_le_one {V : Type} {r : Run V} {caps0 : Nat → Option (V × Bool)} {total : Nat → Nat}
+    {i : Nat} {rest outs : List Nat}
+    {st : St V} {E : Nat → Option V} (hs : Sim r caps0 total (i :: rest) outs st E) {op : OpNode}
     (hop : getOp r.g i = some op) {d : Nat} (hrc : st.rc d = 1) (hne : st.temps d ≠ none) :
     (opDeps r.g op).count d ≤ 1 := by
   cases ht : st.temps d with
